@@ -489,6 +489,19 @@ class Fn:
                 byv = {}
                 ok = True
                 for dsite, kind, st in ds:
+                    if kind == "call":
+                        # `x?` on the way out: `from_residual` builds the failure variant (None / Err) of the result type
+                        fnc = st.get("func") or {}
+                        nm = ((fnc.get("fn") or {}).get("def") or "") if fnc.get("k") == "const" else ""
+                        ty = self.local_ty(l)
+                        if nm.endswith("FromResidual::from_residual") and re.match(r"^(std|core)::option::Option<", ty):
+                            byv.setdefault("None", []).append(dsite)
+                            continue
+                        if nm.endswith("FromResidual::from_residual") and re.match(r"^(std|core)::result::Result<", ty):
+                            byv.setdefault("Err", []).append(dsite)
+                            continue
+                        ok = False
+                        break
                     if kind != "assign" or st["rv"]["k"] != "agg" or st["rv"].get("kind") != "adt" or st["rv"].get("variant") is None:
                         ok = False
                         break
